@@ -60,10 +60,15 @@ type MAlloc struct {
 
 // Model is the reference model of a TURN server, fed only by what clients observe.
 type Model struct {
-	W       *World
-	Rec     *Rec
-	Allocs  map[string]*MAlloc // client key -> latest allocation
-	ByRelay map[string]*MAlloc // relay address -> latest allocation using it
+	W           *World
+	Rec         *Rec
+	Allocs      map[string]*MAlloc   // client key -> latest allocation
+	ByRelay     map[string]*MAlloc   // relay address -> latest allocation using it
+	evSeen      int                  // lifecycle events consumed by lateEvents
+	allocGoneAt map[string]time.Time // 5-tuple -> instant of its allocation-deleted callback
+	// LoseNextResponse: the server's socket write fails for the answer to the next authenticated
+	// non-Allocate request of a UDP client; the request is then retransmitted (see do).
+	LoseNextResponse bool
 	// RelayMayRunOut: the server's relay address generator draws from a small range, a plain
 	// Allocate may legitimately be answered 508 (Insufficient Capacity).
 	RelayMayRunOut bool
